@@ -136,6 +136,10 @@ def run(model: RepoModel, rep, tier: str):
     rep.rule("C03.R5", "body attributes name blocks they own: a block-valued attribute receives the id returned by flatten_block "
                        "called with the owning statement's id as parent", 2)
 
+    from ..generic3 import check_starred_unpacking
+    rep.rule("C03.R7", "the language phase does not end with an unhandled ValueError on an empty list: every `first, *rest = xs` in the frontends, "
+                       "the flattener and the normalisation passes is dominated by a non-emptiness test (expected count on the pinned tree: zero)", 0)
+    check_starred_unpacking(model, rep, "C03.R7", sorted(r for r in model.modules if r.startswith(("lang/", "events/"))))
     rep.rule("C03.R6", "no regular expression is built from unescaped text of the analysed program in the language phase (re.error is an "
                        "unhandled exception there and ends the phase for every file)", 5)
     from .c08 import check_regex_escape
